@@ -278,6 +278,7 @@ static void do_op(void)
         }
         vh_evals(1);
         dg_add(p != NULL);
+        vh_op("  -> %s", p ? "non-NULL" : "NULL");
         if (!p) { char key[40]; snprintf(key, sizeof key, "%s:null", opkey); vh_fail(key, "%s returned NULL for %zu bytes", opkey, n); }
         if (which == 1) for (size_t k = 0; k < n; k++) if (((char *) p)[k]) vh_fail("calloc:not-zeroed", "byte %zu of a calloc block is non-zero", k);
         if (n && vh_have_asan() && vh_alloc_size(p) != n) { char key[40]; snprintf(key, sizeof key, "%s:block-size", opkey); vh_fail(key, "asked for %zu bytes, block has %zu", n, vh_alloc_size(p)); }
@@ -301,7 +302,7 @@ static void do_op(void)
         if (i < 0) return;
         struct slot *s = &pool[i];
         int was_tracked = s->p && sh_find(s->p) >= 0;
-        const char *cls = !s->p ? "NULL" : was_tracked ? "tracked" : "unknown";
+        const char *cls = !s->p ? "NULL" : s->kind == K_TRACKED ? "tracked" : "unknown";       /* nominal: same text in both builds */
         if (op < 72) {                                       /* realloc */
             size_t n = vh_coin(12) ? 0 : pick_size();
             void *old = s->p; size_t oldn = s->size;
@@ -309,6 +310,7 @@ static void do_op(void)
             void *p = via < 0 ? spifmem_realloc("var", file, line, old, n) : SITES[via].r(old, n, &line);
             vh_evals(1);
             dg_add(((uint64_t) (old != NULL) << 2) | ((uint64_t) (n != 0) << 1) | (p != NULL));
+            vh_op("  -> %s", p ? "non-NULL" : "NULL");
             vh_count("op_realloc", 1);
             if (old && n == 0) {                             /* realloc to size 0 frees */
                 if (p) vh_fail("realloc:zero-not-freed", "realloc(p, 0) returned a block");
@@ -453,6 +455,7 @@ static void run_interleaving(void)
     size_t heap1 = vh_heap_bytes() - table_bytes();
     vh_evals(1);
     dg_add(heap1 == heap0);
+    vh_op("  -> heap %s", heap1 == heap0 ? "balanced" : "NOT balanced");
     if (vh_have_asan() && heap1 != heap0)
         vh_fail("heap-balance", "heap holds %ld bytes more than before the program after every block was freed", (long) heap1 - (long) heap0);
     if (pop == 'B') vh_digest(dg);
@@ -561,7 +564,9 @@ static void run_objects(void)
                 spif_str_t k = spif_str_new_from_ptr((spif_charptr_t) buf);
                 snprintf(buf, sizeof buf, "value-%lu", (unsigned long) vh_below(100000));
                 spif_str_t v = spif_str_new_from_ptr((spif_charptr_t) buf);
-                SPIF_MAP_SET(mp, k, v); nobj += 2;
+                SPIF_MAP_SET(mp, k, v);             /* the map stores duplicates of key and value ... */
+                spif_str_del(k); spif_str_del(v);   /* ... so the originals are still ours to delete */
+                nobj += 4;
             }
             if ((long) REC->cnt > peak) peak = (long) REC->cnt;
             SPIF_MAP_DEL(mp);
